@@ -77,6 +77,8 @@ var rcfgs = []rcfg{
 	{k8s.DefaultAnnotationTagRegex, "^(?P<tag>app)$"},
 	{"", "^team/(?P<tag>.*)$|^app$"},
 	{"", ""},
+	// regexes that are not anchored at the start: the match begins in the middle of the key
+	{"atlassian\\.com/(?P<tag>.+)$", "eam/(?P<tag>.*)$"},
 	// one alternative per prefix, each with its own group named tag
 	{"^(?:gostatsd\\.atlassian\\.com/(?P<tag>.+)|oth(?P<tag>.+))$", "^(?:team/(?P<tag>.+)|a(?P<tag>p+))$"},
 }
